@@ -152,8 +152,8 @@ func c03Prelude(c *Ctx) {
 		return
 	}
 	reZero := regexp.MustCompile(`#define\s+I(32|64)_(CLZ|CTZ)\(x\)\s+\(\(x\)\s*\?\s*__builtin_(clz|ctz)(ll|l)?\(x\)\s*:\s*(\d+)\)`)
-	// I32_ROTL(x, y) [(int32_t)]ROTL(<x or (uint32_t)(x)>, y, 31)
-	reRot := regexp.MustCompile(`#define\s+I(32|64)_(ROTL|ROTR)\(x,\s*y\)\s+\(*(?:\(int(?:32|64)_t\))?\s*(ROTL|ROTR)\((.*?),\s*y,\s*(\d+)\)`)
+	// I32_ROTL(x, y) [(int32_t)]ROTL(<x or (uint32_t)(x)>, <y or (uint32_t)(y)>, 31)
+	reRot := regexp.MustCompile(`#define\s+I(32|64)_(ROTL|ROTR)\(x,\s*y\)\s+\(*(?:\(int(?:32|64)_t\))?\s*(ROTL|ROTR)\((.*?),\s*(?:\(uint(?:32|64)_t\)\(y\)|y),\s*(\d+)\)`)
 	n := 0
 	for i, line := range strings.Split(string(src), "\n") {
 		loc := fmt.Sprintf("%s:%d", rel, i+1)
